@@ -233,6 +233,48 @@ def run_obj(root, hexs):
         return "None"
 
 
+def run_intops(name, v, w):
+    """C16: the typed value behaves as the plain integer (both operand orders)"""
+    import operator as op
+
+    t = PRIMS.get(name)
+    z, y = int(v), int(w)
+    x = t(z)
+    if int(x) != z or not (x == z) or not (z == x) or (x != z) or hash(x) != hash(z):
+        return "BAD identity"
+    if x.__index__() != z:
+        return "BAD index"
+    for nm, f in (("lt", op.lt), ("le", op.le), ("gt", op.gt), ("ge", op.ge), ("eq", op.eq), ("ne", op.ne)):
+        if f(x, y) != f(z, y) or f(y, x) != f(y, z):
+            return "BAD " + nm
+    ops = [("add", op.add), ("sub", op.sub), ("mul", op.mul), ("and", op.and_), ("or", op.or_), ("xor", op.xor)]
+    if y != 0:
+        ops += [("floordiv", op.floordiv), ("mod", op.mod), ("truediv", op.truediv), ("divmod", divmod)]
+    for nm, f in ops:
+        if f(x, y) != f(z, y):
+            return "BAD " + nm
+    if z != 0:
+        for nm, f in (("rfloordiv", op.floordiv), ("rmod", op.mod), ("rtruediv", op.truediv), ("rdivmod", divmod)):
+            if f(y, x) != f(y, z):
+                return "BAD " + nm
+    for nm, f in ops[:6]:
+        if f(y, x) != f(y, z):
+            return "BAD r" + nm
+    sh = abs(y) % 70
+    if (x << sh) != (z << sh) or (x >> sh) != (z >> sh):
+        return "BAD shift"
+    if 0 <= z < 70 and ((y << x) != (y << z) or (y >> x) != (y >> z)):
+        return "BAD rshift"
+    e = abs(y) % 5
+    if x**e != z**e:
+        return "BAD pow"
+    if 0 <= z < 6 and abs(y) < 1000 and y**x != y**z:
+        return "BAD rpow"
+    if str(x) != format(x):
+        return "BAD str %s vs %s" % (str(x), format(x))
+    return "OK"
+
+
 def run_int(name, v):
     t = PRIMS.get(name)
     if t is None:
@@ -370,8 +412,21 @@ def run_attr(name, v):
     return ",".join(out)
 
 
+def run_rc(v):
+    from tpmstream.spec.structures.constants import TPM_RC
+
+    x = TPM_RC(int(v))
+    rows = []
+    for a in x.attributes():
+        d = a._details or ""
+        rows.append("%s:%d:%s" % (a._name, int(a._value), d.split(":")[0]))
+    return "%s|%s" % (str(x), ",".join(rows))
+
+
 def handle(line):
     parts = line.split(" ")
+    if parts[0] == "rc":
+        return run_rc(parts[2])
     if parts[0] == "attr":
         return run_attr(parts[2], parts[3])
     if parts[0] == "rt":
@@ -384,6 +439,8 @@ def handle(line):
         return run_obj(parts[2], parts[3])
     if parts[0] == "int":
         return run_int(parts[2], parts[3])
+    if parts[0] == "intops":
+        return run_intops(parts[1], parts[2], parts[3])
     return "BADREQ"
 
 
